@@ -132,7 +132,7 @@ def render_block(stmts, ind, out, in_beh):
         elif op in ("abort", "break", "continue", "return"):
             out.append(pad + op)
         elif op == "override":
-            out.append(f"{pad}override {s[1]} with {s[2]} {s[3]!r}")
+            out.append(f"{pad}override {s[1]} with {s[2]} {s[3][1] if isinstance(s[3], list) else repr(s[3])}")
         elif op == "fault":
             out.append(f"{pad}fault({s[1]!r})")
         elif op == "bind":
@@ -174,7 +174,7 @@ def render_setup(stmts, ind, out, objpos):
         elif op == "require":
             out.append(f"{pad}require {_c(s[1], 'require')}")
         elif op == "override":
-            out.append(f"{pad}override {s[1]} with {s[2]} {s[3]!r}")
+            out.append(f"{pad}override {s[1]} with {s[2]} {s[3][1] if isinstance(s[3], list) else repr(s[3])}")
         elif op == "recordprop":
             out.append(f"{pad}record prop({s[2]!r}, {s[3]!r}) as {s[1]}")
         elif op == "fault":
